@@ -59,6 +59,19 @@ func runRTOne(args []string) error {
 			}
 		}
 		if nd > 0 {
+			mx := 0
+			for j := range src {
+				if j < len(out) {
+					d := out[j] - src[j]
+					if d < 0 {
+						d = -d
+					}
+					if d > mx {
+						mx = d
+					}
+				}
+			}
+			fmt.Printf("max abs error %d\n", mx)
 			bad++
 			if *dump {
 				fmt.Printf("stream %x\n", stream)
